@@ -411,12 +411,14 @@ def _trie_walk(ix, fn):
                             and "CFGNode::id" in str(k[1]) and uncast(k[2]) == ("var", lv.get("name"), lv["id"])
                             else str(k))
   # the missing-child branch
+  miss_if = None
   for n in cxx.walk(body):
     if n.get("kind") == "IfStmt":
       parts = list(inner(n))
       cond = uncast(term(ix, parts[0]))
       if isinstance(cond, tuple) and cond[0] == "opcall" and cond[1] == "operator==" and "end" in str(cond):
         then = parts[1]
+        miss_if = n
         kinds = [x.get("kind") for x in cxx.walk(then)]
         if "ReturnStmt" in kinds:
           ret = [x for x in cxx.walk(then) if x.get("kind") == "ReturnStmt"][0]
@@ -433,10 +435,19 @@ def _trie_walk(ix, fn):
           facts["missing_child"] = "continue"
         else:
           facts["missing_child"] = "other"
+  # any other way of leaving an iteration early means a blocked node that
+  # does not contribute a trie level
+  inside = set()
+  if miss_if is not None:
+    inside = {id(x) for x in cxx.walk(miss_if)}
+  skips = [x for x in cxx.walk(body) if x.get("kind") in ("BreakStmt", "ContinueStmt", "ReturnStmt", "GotoStmt")
+           and id(x) not in inside]
+  facts["level_skipped_at_lines"] = sorted(
+      ((x.get("range") or {}).get("begin") or {}).get("line") or 0 for x in skips)
   return facts, pnames
 
 
-@rule("R8.5", "C08", floor=4)
+@rule("R8.5", "C08", floor=6)
 def r8_5(ctx):
   """The path cache is keyed by exactly (start, finish, blocked set).
 
@@ -459,6 +470,14 @@ def r8_5(ctx):
               f"{f.get('loop_over')} keyed by {f.get('child_key')}; expected "
               f"root_[{pn[0]}][{pn[1]}], one level per node of {pn[2]} keyed "
               "by node->id()", f)
+  for name, f in (("InsertResult", fi), ("GetResult", fg)):
+    ctx.check(not f.get("level_skipped_at_lines"), f"{name}:every-blocked-node-is-a-level",
+              "pytype/typegraph/solver.cc", (f.get("level_skipped_at_lines") or [0])[0],
+              f"{name} can leave an iteration of the walk over the blocked set "
+              f"early (line(s) {f.get('level_skipped_at_lines')}): such a blocked "
+              "node is not part of the cache key, so two queries whose blocked "
+              "sets differ only in it share one entry and the answer depends on "
+              "which was asked first", f)
   ctx.check(fi.get("missing_child") == "create", "InsertResult:missing-child-created",
             "pytype/typegraph/solver.cc", ins.line,
             f"InsertResult must create the missing trie level; it does: {fi.get('missing_child')}", fi)
@@ -523,4 +542,5 @@ VARIANTS = [
     {"name": "pathcache-get-keyed-by-finish-only", "rule": "R8.5", "file": _tg("solver.cc"), "expect": "fire",
      "old": "                                     const CFGNodeSet& blocked) {\n  TrieNode* current_trie_node = &root_[start][finish];",
      "new": "                                     const CFGNodeSet& blocked) {\n  TrieNode* current_trie_node = &root_[finish][finish];"},
+    {"name": "seeded-C08-r2m2-key-drops-later-nodes", "rule": "R8.5", "patch": "seeded/C08-r2m2/patch.diff", "expect": "fire"},
 ]
